@@ -1,15 +1,16 @@
 /* what the timer sees of io_context::add_timer / remove_timer (-> simulation::add_timer / remove_timer,
- * whose real bodies are under contract in the simulation unit: [C03.order], [C03.remove]).
- * Here only membership matters: ghost g_in_queue. */
+ * whose real bodies are under contract in the simtq unit: [C03.order], [C03.remove]).
+ * Here only membership matters: ghost g_in_queue, and the expiry the timer was filed under (g_queued_exp):
+ * the registry is searched by expiry, so a queued timer must be removed while it still has that expiry. */
 #ifndef VF_TIMER_UNIT_H
 #define VF_TIMER_UNIT_H
 void sim_add_timer(struct hrtimer *t)
-__CPROVER_requires(!t->g_in_queue)      /* a timer is never inserted twice */
-__CPROVER_assigns(t->g_in_queue)
-__CPROVER_ensures(t->g_in_queue == 1)
+__CPROVER_requires(!t->g_in_queue)      /*[C03.registry]*/ /* a timer is never inserted twice */
+__CPROVER_assigns(t->g_in_queue, t->g_queued_exp)
+__CPROVER_ensures(t->g_in_queue == 1 && t->g_queued_exp == t->m_expiration_time)
 ;
 void sim_remove_timer(struct hrtimer *t)
-__CPROVER_requires(1)
+__CPROVER_requires(!t->g_in_queue || t->m_expiration_time == t->g_queued_exp)   /*[C03.registry,C02.registry]*/
 __CPROVER_assigns(t->g_in_queue)
 __CPROVER_ensures(!t->g_in_queue)
 ;
